@@ -1,7 +1,108 @@
 //! C16 probe: indexing a valid chain never fails.
+//!
+//! The failure observation itself is in `ixlib::run`: every `Index::update` runs under a watchdog
+//! and `catch_unwind`; a panic / `Err` / hang ends the chain with `endblock panic …|err …|hang`
+//! (a model diff) and `index.oracle.nofail <case> <height>` → `true` is emitted per update.
+//!
+//! What this probe adds ties the generator's notion of "consensus-valid" to the Lean predicate
+//! `Ord.Index.Valid.validChain` (lean/OrdModel/Index/Valid.lean), the hypothesis of the C16
+//! theorem — so a chain on which the indexer fails *and* these lines answer `true` is a chain
+//! that the theorem's hypothesis accepts:
+//!
+//!   ix.oracle.validblock <case> <height> <ntx> {txid nin {prev-txid vout spent-value} nout {value}}
+//!       one per newly indexed block; the driver evaluates `Valid.checkBlock` on the block alone
+//!       with the spent values taken from the generator's record of the chain (`ctx.g.txs`)
+//!   ix.oracle.validchain <case> <height> ## block … ## tx … ## …
+//!       every third height: the whole chain so far in the block protocol's own `block` / `tx`
+//!       lines (parsed envelopes, deciphered runestones, node answers); the driver evaluates
+//!       `Valid.validChain` itself
+//!
+//! and counts what the adversarial content of the new blocks was (dist → evidence).
 use {
   common::{Dist, Rng, Streams},
-  ixlib::Ctx,
+  ixlib::{Ctx, emit},
+  ord::ParsedEnvelope,
+  ordinals::{Artifact, Rune, Runestone},
 };
 
-pub fn probe(_ctx: &Ctx, _rng: &mut Rng, _out: &mut Streams, _dist: &mut Dist) {}
+pub fn probe(ctx: &Ctx, _rng: &mut Rng, out: &mut Streams, dist: &mut Dist) {
+  let height = ctx.node.height();
+  for h in ctx.first_new_height.min(height)..=height {
+    let block = ctx.node.block_at(h);
+    let mut line = format!("ix.oracle.validblock {} {h} {}", ctx.case, block.txdata.len());
+    let block_txids: Vec<_> = block.txdata.iter().map(|t| t.compute_txid()).collect();
+    for tx in &block.txdata {
+      line.push_str(&format!(" {} {}", tx.compute_txid(), tx.input.len()));
+      for input in &tx.input {
+        let prev = input.previous_output;
+        let value = if prev.is_null() {
+          0
+        } else {
+          // the value of the output being spent, from the generator's record of every
+          // transaction of the chain (not from the indexer under test)
+          ctx.g.txs.get(&prev.txid).and_then(|(t, _)| t.output.get(prev.vout as usize)).map(|o| o.value.to_sat()).unwrap_or_else(|| {
+            dist.hit("c16_spent_output_unknown");
+            0
+          })
+        };
+        if block_txids.contains(&prev.txid) {
+          dist.hit("c16_input_spends_same_block");
+        }
+        line.push_str(&format!(" {} {} {value}", prev.txid, prev.vout));
+      }
+      line.push_str(&format!(" {}", tx.output.len()));
+      for o in &tx.output {
+        line.push_str(&format!(" {}", o.value.to_sat()));
+      }
+      // what the adversarial content looked like to the parsers on the indexing path
+      dist.hit("c16_tx");
+      let envs = ParsedEnvelope::from_transaction(tx);
+      dist.add("c16_envelope", envs.len() as u64);
+      if envs.iter().any(|e| e.input != 0) {
+        dist.hit("c16_tx_envelope_in_later_input");
+      }
+      if envs.iter().any(|e| e.offset != 0) {
+        dist.hit("c16_tx_several_envelopes_in_one_input");
+      }
+      if tx.input.iter().any(|i| !i.witness.is_empty()) && envs.is_empty() {
+        dist.hit("c16_tx_witness_without_envelope");
+      }
+      match Runestone::decipher(tx) {
+        Some(Artifact::Cenotaph(c)) => {
+          dist.hit("c16_cenotaph");
+          dist.hit(&format!("c16_cenotaph_{:?}", c.flaw.map(|f| format!("{f:?}")).unwrap_or("none".into())).replace('"', ""));
+        }
+        Some(Artifact::Runestone(r)) => {
+          dist.hit("c16_runestone");
+          if r.edicts.iter().any(|e| e.output as usize == tx.output.len()) {
+            dist.hit("c16_edict_output_eq_len");
+          }
+          if r.edicts.iter().any(|e| e.amount == u128::MAX) {
+            dist.hit("c16_edict_amount_max");
+          }
+        }
+        None => {
+          if tx.output.iter().any(|o| o.script_pubkey.is_op_return()) {
+            dist.hit("c16_op_return_no_artifact");
+          }
+        }
+      }
+    }
+    out.emit(&line, "true");
+    dist.hit("c16_validblock");
+  }
+  if height % 3 == 0 {
+    let mut line = format!("ix.oracle.validchain {} {height}", ctx.case);
+    for h in 0..=height {
+      let block = ctx.node.block_at(h);
+      let min = Rune::minimum_at_height(ctx.g.network, ordinals::Height(h)).0;
+      line.push_str(&format!(" ## block {h} {} {} {min}", block.header.time, block.block_hash()));
+      for tx in &block.txdata {
+        line.push_str(" ## ");
+        line.push_str(&emit::tx_line(tx, &ctx.g.txs));
+      }
+    }
+    out.emit(&line, "true");
+    dist.hit("c16_validchain");
+  }
+}
